@@ -64,6 +64,8 @@ def adversarial_particles(rng, n1d_shape, npart, coord, box, dtype, nrand=40):
 
 def classify(conf, conflicts):
     n1d, npart = conf['n1d'], conf['npartition_used']
+    if conf.get('nthread') == 1 and conf.get('threads_in_force_at_kernel_entry', 1) > 1:
+        return 'serial-request-runs-multithreaded'
     w = n1d / npart if npart else 0
     if w < 3:
         return 'stripe-narrower-than-cloud'
@@ -104,7 +106,11 @@ def run_config(run, tsc, mon, rng, n1d, nthread, npartition, coord, sort, offset
     used = len(mon.last_starts) - 1
     conf['npartition_used'] = used
     run.count('accepted')
-    if nthread == 1:
+    eff = getattr(mon, 'effective_threads', nthread)
+    conf['threads_in_force_at_kernel_entry'] = eff
+    if eff != nthread:
+        run.count('kernel_entered_with_other_thread_count')
+    if nthread == 1 and eff == 1:
         run.count('accepted_serial_no_concurrency')
         return 'serial'
     # now the adversarial set for the partition actually used
@@ -181,7 +187,7 @@ def acceptance_sweep(run, tsc):
 def lattice_particles(rng, n1d, npart, coord, box, N):
     """Particles on a 1/8-cell lattice within 2 cells of stripe boundaries (exactly representable)."""
     h = box / n1d
-    bnd_cells = (np.arange(npart + 1) * n1d / npart)
+    bnd_cells = np.round(np.arange(npart + 1) * n1d / npart * 8) / 8  # keep every position on the exact 1/8-cell lattice
     c = rng.choice(bnd_cells, N) + rng.integers(-16, 17, N) / 8.0
     x = np.mod(c, n1d) * h
     pos = np.empty((N, 3), dtype=np.float64)
@@ -226,6 +232,22 @@ def stress(run, tsc):
                         conf = dict(n1d=n1d, nthread=nthread, coord=coord, npartition=None, npartition_used=None)
                         run.violation('compiled-parallel-differs-from-serial', dict(n1d=n1d, nthread=nthread, coord=coord, rep=r, cells_differing=nd, mass_parallel=float(out.sum()), mass_serial=float(ref.sum())))
                         break
+    # nthread=1 with stripe counts that are only accepted because the deposit is serial
+    for n1d, npart in ((32, 16), (32, 3), (16, 8), (24, 5)):
+        box = float(n1d)
+        pos = lattice_particles(rng, n1d, npart, 0, box, N)
+        w = rng.integers(1, 4, N).astype(np.float64)
+        with warnings.catch_warnings():
+            warnings.simplefilter('ignore')
+            ref = tsc.tsc_parallel(pos.copy(), np.zeros((n1d, n1d, n1d), dtype=np.float64), box, weights=w, nthread=1, wrap=False, npartition=1)
+            for r in range(reps):
+                out = tsc.tsc_parallel(pos.copy(), np.zeros((n1d, n1d, n1d), dtype=np.float64), box, weights=w, nthread=1, wrap=False, npartition=npart, sort=bool(r % 2))
+                run.ev()
+                run.count('stress_runs')
+                run.nt(('stress1', n1d, npart, r % 2))
+                if not np.array_equal(out, ref):
+                    run.violation('compiled-parallel-differs-from-serial', dict(n1d=n1d, nthread=1, npartition=npart, rep=r, cells_differing=int((out != ref).sum()), mass_parallel=float(out.sum()), mass_serial=float(ref.sum())))
+                    break
     run.sample(dict(stress_example=dict(n1d=confs[0][0], nthread=confs[0][1], particles=N, lattice='1/8 cell, within 2 cells of stripe boundaries', grid='float64', compare='bitwise')))
 
 
